@@ -24,8 +24,7 @@ class D(Driver):
         w.local_origin = set()
         w.app_log = []
         w.step_viol = []
-        pat = w.opts.get("autosync")
-        if pat:
+        for pat in _pats(w):        # one registered predicate per pattern, in this order
             w.cs.register_auto_sync_callback(lambda path, _p=pat: fnmatch.fnmatch(path.split("/")[-1], _p))
 
         def actions(world):
@@ -86,8 +85,7 @@ class D(Driver):
     def allowed_local(self, w, rel):
         if rel in w.requested or rel in w.local_origin:
             return True
-        pat = w.opts.get("autosync")
-        if pat and fnmatch.fnmatch(rel.split("/")[-1], pat) and rel not in w.unwanted:
+        if any(fnmatch.fnmatch(rel.split("/")[-1], pat) for pat in _pats(w)) and rel not in w.unwanted:
             return True
         # a file the local user created (or renamed) is local-origin
         for side, op, ok in w.user_log:
@@ -126,6 +124,12 @@ class D(Driver):
             if rel in tr and tr[rel] is not None:
                 if tl.get(rel) != tr[rel]:
                     vs.append(viol("requested-not-in-sync", rel, obs))
+        # files matching ANY registered auto-sync predicate are downloaded and kept in sync (unless un-requested)
+        for rel, v in tr.items():
+            if v is None or _is_conflicted(rel) or rel in w.unwanted or any(rel == u[0] for u in w.unreq):
+                continue
+            if any(fnmatch.fnmatch(rel.split("/")[-1], pat) for pat in _pats(w)) and tl.get(rel) != v:
+                vs.append(viol("auto-sync-not-synced", rel, obs))
         # un-request: remote keeps the newest bytes, only the local copy goes
         for rel, lb, rb in w.unreq:
             deleted_by_user = any(op[0] == "delete" and op[1] == rel and ok for s, op, ok in w.user_log)
@@ -140,6 +144,13 @@ class D(Driver):
                 if wrote_after and tr[rel] not in wrote_after and lb is not None and tr[rel] != lb:
                     vs.append(viol("unsync-lost-local-edit", rel, obs))
         return obs, vs
+
+
+def _pats(w):
+    p = w.opts.get("autosync")
+    if not p:
+        return []
+    return list(p) if isinstance(p, (list, tuple)) else [p]
 
 
 def check_listing(w, rel, lst):
@@ -206,6 +217,15 @@ def jobs(tier):
                 if auto:
                     opts["autosync"] = auto
                 out.append({"prop": PROP, "cfg": cfg, "order": "asc", "base": BASE_R, "scripts": st, "app": app, "opts": opts,
+                            "mode": {"k": None, "cap": 2500 if tier == "quick" else 10000, "depth": 60, "audit": 0}})
+    # several registered predicates: a file matching only a later one is auto-synced too
+    base2 = BASE_R + [["create", "m.cfg", "4"], ["create", "d/k.cfg", "5"]]
+    for cfg in cfgs:
+        for pats in (["*.auto", "*.cfg"], ["*.cfg", "*.auto"], ["*.none", "*.cfg"]):
+            for app, L, R in (([], [], []), ([], [], [["write", "m.cfg", "R1"]]), ([["LIST", ""]], [], []),
+                              ([["UNREQ", "m.cfg"]], [], [])):
+                out.append({"prop": PROP, "cfg": cfg, "order": "asc", "base": base2, "scripts": [L, R], "app": app,
+                            "opts": {"smart": True, "check_base": False, "base_side": 1, "autosync": pats},
                             "mode": {"k": None, "cap": 2500 if tier == "quick" else 10000, "depth": 60, "audit": 0}})
     # a transient provider error while an un-request pushes the pending local edit up: the edit must not be dropped
     for cfg in cfgs:
